@@ -86,6 +86,12 @@ def _setup(case):
         own = cv.grid2geo(z2, e2, n2, hemi, ell)[1]
         if not (-180.0 + 1e-6 <= own <= 180.0 - 1e-6):
             raise Discard()      # given in zone z2 the point's longitude leaves [-180, 180]: excluded by the quantifier
+    zk = case.get("zk", "int")
+    if zk != "int":
+        # zone numbers as they come out of a numpy table (np.int64 / np.int32): the same zones, another integral type
+        import numpy as np
+        t = np.int64 if zk == "np64" else np.int32
+        z1, z2 = t(z1), t(z2)
     return cv, ell, z1, e1, n1, z2, e2, n2, hemi
 
 
@@ -248,6 +254,7 @@ def lines(draw, ell_strategy=None):
         lat = math.copysign(draw(S.floats(0.06, 0.85)), lat)      # first point within 100 km of the equator
     return {"zone": zone, "lat": lat, "dlon": dlon, "dist": dist, "brg": brg, "ell": ell, "adj": adj, "on_equator": on_eq,
             "hspell": draw(st.sampled_from(["lower", "lower", "Cap", "Cap", "UPPER", "default"])),
+            "zk": draw(st.sampled_from(["int", "int", "int", "np64", "np32"])),
             "bkind": draw(st.sampled_from(["float", "float", "float", "dms", "ddm", "hpa", "deca", "gona"]))}
 
 
